@@ -232,6 +232,7 @@ class RepeatedValueWrapper(MutableSequence[_V], Generic[_M, _V]):
             raise ValueError(
                 f'attempt to assign sequence of size {len(values)} to extended slice of size '
                 f'{len(raw_indexes_to_update)}')
+        properties._check_reusable(value for value in values if isinstance(value, base.RawModel))
         for raw_index, value in zip(raw_indexes_to_update, values):
             if not self._update_raw(self._raw_wrapper[raw_index], value):
                 self._raw_wrapper[raw_index] = self._to_raw_type(value)
